@@ -5,6 +5,16 @@ ROOT = os.path.dirname(os.path.dirname(os.path.abspath(__file__)))
 PROPS = [json.loads(l)["id"] for l in open(os.path.join(ROOT, "properties.jsonl"))]
 
 CLAIMED = {
+ "C06": dict(
+   text="Coq theorems (Props/C06.v, 15 theorems, axiom-free) over the Gallina model of UnionCal / NamedCal / Cal (is_bus_day = all members, is_settlement = all settlement calendars or true when there are none, NamedCal::try_new = lower-case, split on '|' then ',', table lookup through the wiring GENERATED from rust/calendars/named/mod.rs) and of the four cross-kind PartialEq impls: union semantics for arbitrary member and settlement calendars in any order; a named string denotes, date for date (every date) and under ==, the explicit union of the tables its parts are wired to; letter case (incl. the non-ASCII code points that lower-case into ASCII) is irrelevant; the strings rejected are exactly those with an unknown part or more than one '|', never an abort; == between any two kinds holds exactly when business days and settlement days agree on every date of 1970-01-01..2200-12-31. Tied to calendar.rs / named/mod.rs on every run by a seeded differential run: name strings (58% malformed), random explicit Cal/UnionCal, hashed date windows with drill-down, and == pairings with one-date differences at and outside the range ends.",
+   note="No axioms. str::to_lowercase is modelled on code points (ASCII, U+212A, U+0130; identity elsewhere). Name wiring and tables are regenerated from /repo by driver/translate.py on every run and tied to the running code exhaustively by the C07 check.",
+   tech="Coq proof (list/boolean reasoning over arbitrary calendars, bounded-range equality characterised by forallb over the 84 371 day numbers) + translator for the name wiring + seeded model-vs-code correspondence",
+   ref="DESIGN.md §4 C06"),
+ "C07": dict(
+   text="Coq theorems (Props/C07.v) over tables and name wiring REGENERATED from rust/calendars/named/*.rs on every run (driver/translate.py -> Gen/NamedTables.v, Gen/NameWiring.v, Gen/DocNames.v, Gen/Fixings.v): for tgt, nyc, fed, ldn, stk, osl, zur every weekday of 1970-01-01..2200-12-31 is in the wired table exactly when the published rules (transcribed as a small rule language with pandas observances and the Gregorian computus, well-formedness and Easter-is-a-Sunday proved) make it a holiday; 'all' and 'bus' have no holidays; fed = nyc minus Good Friday; for tro, tyo, syd, wlg, mum every weekday occurrence of a documented fixed-date or Easter-linked holiday is in the table; every documented name resolves; over each of the nine shipped fixing histories the calendar's business days are exactly the publication dates. The domain is finite (84 371 days), so forallb ... = true by vm_compute lifted with forallb_forall IS the proof, bound stated in the theorem. Translator tied to the running code on every run: every name x every date 1970-2200 through the real get_calendar_by_name.",
+   note="No axioms. The rules are the specification (transcribed from the RULES consts / scripts and the public holiday laws); a table change that breaks a theorem is confirmed on the real code date by date before it is reported. Trusted: the translator (checked exhaustively against the running code), the rule transcription (readable in Model/Rules.v).",
+   tech="Coq proof by reflection over the finite date range (vm_compute + forallb_forall) on translator-generated tables + exhaustive translator-vs-code correspondence",
+   ref="DESIGN.md §4 C07"),
  "C11": dict(
    text="Coq theorems (Props/C11.v, over R, every node count >= 2, arbitrary spacing, every supply order and every query date) about the Gallina model of CurveDF::try_new / interpolated_value / node_index, NodesTimestamp::sort_keys, the hand-written bisection index_left (with its small-size special cases and closed right ends) and the five interpolation rules: index_left returns clamp 0 (n-2) (j-1) for j the first node on or after the date (right-closed intervals, clamped to first/last); every look-up equals the rule's closed form on just the two nodes of that interval (and node 0 for the zero-rate rule); the value at a node date is the node's value (zero-rate: 1 at the first node); the explicit between-node formulas (line, line in logs, line in the zero rate from the first node, left value on [x1,x2), right value on (x1,x2]) with min/max bounds for the first two; dates outside the range use the first/last interval's formula; any permutation of nodes with distinct timestamps builds the same curve (through try_new and through the Python-facing constructor). Tied to rust/curves on every run through CurveDF and the real #[pyclass] Curve (hook), plus index_left on f64 lists exhaustively over positions.",
    note="Theorems over R (rounding outside; exp/ln paths compared at 1e-9, everything else exactly). Datetime keys collide within one second (IndexMap::from_iter): modelled and exercised. Hooks in rust/verif_hooks.rs (feature verif_hooks) drive the private pymethods through the embedded interpreter.",
